@@ -11,7 +11,7 @@ RULE = ("cases = (pair of equal-length arrays, dtype pair, ufunc) for all arrays
 ASSUMPTIONS = ["numpy on the decoded arrays is the reference (NaN matches NaN)", "float values are dyadic; only correctly rounded float ufuncs",
                "results must satisfy the run-length constructor invariant; two-operand results must have adjacent runs joined"]
 REQUIRED_FEATURES = ["boundaries_coincide", "boundaries_interleave", "boundaries_nested", "result_needs_rejoin", "scalar_left", "undefined_reference",
-                     "histogram", "concatenate", "reduction", "reduction_of_unjoined_array", "same_left_operand_sequence", "close_values_beyond_2**53", "nan_operands"]
+                     "histogram", "concatenate", "reduction", "reduction_of_unjoined_array", "same_left_operand_sequence", "close_values_beyond_2**53", "nan_operands", "signed_zeros"]
 BOUNDS = {"quick": "all pairs of arrays L<=3 over 3 values x all pairs of {bool,int8,int64,uint8,float64} x 13 binary ufuncs; L=4 for int64 x int64 (5 ufuncs); "
                    "scalars {2, 2.5, True, np.int8(3), np.float32(1.5)} both sides x 13 ufuncs, 6 unary ufuncs, sum/any/all/max/mean, histogram (1-4 bins, with range), "
                    "concatenate of 2-3 arrays, for all arrays L<=4; int64 / uint64 neighbours beyond 2**53; NaN / inf operands; close floats; histogram with default bins and with density; reductions of unjoined arrays; sequences on one left operand incl. in-place",
@@ -36,6 +36,7 @@ def shards(tier):
         out.append({"pair": ["bool", "bool"], "lmax": 5, "lmin": 5, "few": 1})
     for d1 in VALS:
         out.append({"single": d1, "lmax": 4 if tier == "quick" else 6})
+    out.append({"single": "f64zero", "lmax": 4, "unary_only": 1})      # +0.0 and -0.0 (equal under ==) with sign-sensitive unary ufuncs
     out.append({"medium": 1})
     out.append({"seq": 1})
     out.append({"pair": ["f64close", "f64close"], "lmax": 3, "few": 1})
@@ -84,6 +85,12 @@ def cases(shard, tier):
                         yield ["bin", d1, list(t1), d2, list(t2), u]
         return
     d1 = shard["single"]
+    if shard.get("unary_only"):
+        for L in range(1, shard["lmax"] + 1):
+            for t1 in itertools.product(range(3), repeat=L):
+                for u in ("signbit", "negative", "reciprocal", "sign", "absolute"):
+                    yield ["un", d1, list(t1), u]
+        return
     for L in range(1, shard["lmax"] + 1):
         for t1 in itertools.product(range(len(VALS[d1])), repeat=L):
             if L > 4 and t1[0] != 0:
@@ -119,6 +126,8 @@ def cases(shard, tier):
 def _arr(dt, t):
     if dt == "f64close":
         return np.array([CLOSE[i % 3] for i in t], dtype=np.float64)
+    if dt == "f64zero":
+        return np.array([[0.0, 1.5, -0.0][i % 3] for i in t], dtype=np.float64)
     if dt == "f64nan":
         return np.array([[float("nan"), float("inf"), 1.0][i % 3] for i in t], dtype=np.float64)
     if dt == "i64big":
@@ -150,6 +159,11 @@ def check(case, acc):
     d1, t1 = case[1], case[2]
     a = _arr(d1, t1)
     ra = RunLengthArray.from_array(a.copy())
+    if d1 == "f64zero":
+        # the statement speaks of the DECODED operand: encoding joins neighbours that are equal under ==, so of two adjacent zeros of
+        # different sign only the first sign survives (C14 allows that: the decoded array equals the original element by element)
+        acc.feature("signed_zeros")
+        a = decode(ra).copy()
     joined = False
     if kind == "bin":
         d2, t2, u = case[3], case[4], case[5]
